@@ -1,0 +1,36 @@
+//go:build verif
+
+/*
+Copyright The Helm Authors.
+
+Licensed under the Apache License, Version 2.0 (the "License");
+you may not use this file except in compliance with the License.
+You may obtain a copy of the License at
+
+    http://www.apache.org/licenses/LICENSE-2.0
+
+Unless required by applicable law or agreed to in writing, software
+distributed under the License is distributed on an "AS IS" BASIS,
+WITHOUT WARRANTIES OR CONDITIONS OF ANY KIND, either express or implied.
+See the License for the specific language governing permissions and
+limitations under the License.
+*/
+
+package kube
+
+import (
+	"k8s.io/apimachinery/pkg/api/meta"
+	"k8s.io/client-go/dynamic"
+)
+
+// NewStatusWaiterForVerif returns the Waiter that GetWaiter builds for
+// StatusWatcherStrategy (or, for HookOnlyStrategy, its hook-only wrapper) over
+// the given dynamic client and REST mapper. Only compiled with the verif build
+// tag; used by external conformance harnesses.
+func NewStatusWaiterForVerif(strategy WaitStrategy, c dynamic.Interface, m meta.RESTMapper) Waiter {
+	sw := &statusWaiter{client: c, restMapper: m}
+	if strategy == HookOnlyStrategy {
+		return &hookOnlyWaiter{sw: sw}
+	}
+	return sw
+}
